@@ -3,7 +3,7 @@ import glob, importlib.util, os
 
 # Checks that are finished and claimed in MANIFEST.json. A checks/<ID>.py that is still being
 # built is loadable by `vk check <ID>` but not claimed until listed here.
-CLAIMED = ["C01", "C02", "C03", "C04", "C05", "C06", "C07", "C08", "C09", "C10", "C11", "C13", "C14", "C15", "C16", "C17", "C18", "C19", "C20"]
+CLAIMED = ["C01", "C02", "C03", "C04", "C05", "C06", "C07", "C08", "C09", "C10", "C11", "C12", "C13", "C14", "C15", "C16", "C17", "C18", "C19", "C20"]
 
 CHECKS = {}
 _here = os.path.dirname(os.path.abspath(__file__))
